@@ -1,4 +1,4 @@
-\* quick: exhaustive safety, two futures of any kind
+\* quick: exhaustive safety, two futures of any kind, up to two timers per program
 CONSTANTS
   N = 2
   Deadlines = {0, 1, 2}
@@ -6,7 +6,7 @@ CONSTANTS
   Kinds = {"sleep", "timeout", "interval"}
   NW = 1
   MaxNow = 3
-  MaxGen = 3
+  MaxGen = 2
   Mut = "none"
 SPECIFICATION Spec
 INVARIANTS TypeOK WheelExact WakerOwner NeverEarly AlwaysFires ReadyWhenDue MinTimeoutCorrect IdleSleepBound TimeoutExact IntervalAligned
